@@ -2,7 +2,7 @@
 import json, os, sys, time
 
 VERIF = os.path.dirname(os.path.dirname(os.path.abspath(__file__)))
-EVID = os.path.join(VERIF, 'evidence')
+EVID = os.environ.get('UFWSA_EVID') or os.path.join(VERIF, 'evidence')
 KNOWN = os.path.join(VERIF, 'known_findings.json')
 
 HOLDS, VIOLATION, BROKEN = 'HOLDS', 'VIOLATION', 'BROKEN'
